@@ -996,7 +996,7 @@ func c01Prune(w *World, r *Report) {
 				continue
 			}
 			if versionLoadOf(bo.X, deployed) || versionLoadOf(bo.Y, deployed) {
-				if (isVersionLoad(bo.X) && isVersionLoad(bo.Y)) {
+				if isVersionLoad(bo.X) && isVersionLoad(bo.Y) {
 					for _, e := range condEdges(bo) {
 						if e.truth == (bo.Op == token.NEQ) {
 							guards = append(guards, e.Edge)
